@@ -128,4 +128,24 @@ example : ∃ σ, XReach true σ ∧ σ.replicas.length = 2 := by
       (XStep.offerOwner _ 0 1 false), ?_⟩
   simp [XSys.init]
 
+/-- **C02 (no gap on apply).** An incremental apply never leaves a gap: a delta that is applied without a reset starts at or
+below the copy's max version (and one applied after a reset starts at 0). -/
+theorem C02_no_gap_on_apply (s : NodeState) (nd : NodeDelta) :
+    (s.checkDeltaStatus nd = .apply → nd.fromExcl ≤ s.maxVersion) ∧
+    (s.checkDeltaStatus nd = .applyAfterReset → nd.fromExcl = 0) := by
+  unfold checkDeltaStatus
+  constructor
+  · intro h
+    split at h
+    · cases h
+    · omega
+  · intro h
+    split at h
+    · cases h
+    · split at h
+      · split at h
+        · cases h
+        · omega
+      · split at h <;> cases h
+
 end Chitchat
